@@ -287,15 +287,18 @@ func longLine(pre string, total int, post string) string {
 }
 
 // textCorpus: fixed file texts that run on every seed - line-end conventions, empty and blank
-// lines, unterminated last lines, and lines around bufio.Scanner's 64 KiB token limit.
+// lines, unterminated last lines, and long lines: around 64 KiB (bufio.Scanner's default token
+// limit, lifted by F14d), 1 MiB, and a few MiB.
 func textCorpus() [][]Chunk {
 	ts := []string{"", "\n", "a", "a\n", "a\n\n", "\n\na\n\n", "a\r\nb\r", "a\r\r\nb", "\r\n", "\r", "a\nb", "# c\r\n[5] hello\ngo",
 		"[1s] x\n|X>", "  \n\t\n# c\n \n", "[5] hello", "# only a comment, no newline", "a\n[x]\r\n<'p',1,1s> {\"a\":\">\"}\r\n|X>\r\nlast",
 		testPlay, strings.ReplaceAll(testPlay, "\n", "\r\n"), strings.TrimSuffix(testPlay, "\n"), testPlay + "[0.1]",
-		// around the limit: a raw line of 65535 bytes is the longest that is read
+		// around the old limit (a raw line of 65535 bytes was the longest that was read), and far beyond
 		longLine("", 65535, ""), longLine("", 65535, "") + "\n", longLine("# ", 65535, "") + "\nafter\n", "before\n" + longLine("[1s] ", 65535, ""),
 		longLine("", 65534, "") + "\r\n" + "z\n", longLine("", 65535, "") + "\r\nz\r\n", // with its \r the second is 65536 raw bytes
 		longLine("", 65536, ""), longLine("", 65536, "") + "\n", "a\nb\n" + longLine("", 65536, "") + "\nc\nd\n", "a\n[5] x\n" + longLine("{", 70000, "}") + "\n|X>\n",
+		longLine("", 65537, "") + "\nz", "# c\n" + longLine("[1s] ", 1<<20, "") + "\r\n[5] x\n", longLine("<'p',1,1s> ", 1<<20+7, ">") + "\n" + longLine("[x] ", 70000, ""),
+		"first\n" + longLine("# ", 3<<20, "") + "\nlast",
 	}
 	out := make([][]Chunk, len(ts))
 	for i, t := range ts {
@@ -306,7 +309,7 @@ func textCorpus() [][]Chunk {
 
 // genText: the bytes of a play file: 0-25 lines of every kind, LF or CRLF (or mixed) line ends,
 // empty and blank lines, leading and trailing blank lines, with or without a final newline; every
-// twelfth file has a line just below or above 64 KiB somewhere.
+// twelfth file has a long line somewhere (65534 bytes .. 1 MiB).
 func genText(r *lib.Rng, i int) []Chunk {
 	n := r.Range(0, 25)
 	style := r.Intn(4) // 0 LF, 1 CRLF, 2 mixed, 3 LF
@@ -342,7 +345,7 @@ func genText(r *lib.Rng, i int) []Chunk {
 		ls = append(ls, l)
 	}
 	if i%12 == 0 {
-		total := []int{65535, 65536, 65535, 70000, 65534}[(i/12)%5]
+		total := []int{65535, 65536, 65537, 70000, 65534, 1 << 20, 200000}[(i/12)%7]
 		at := r.Intn(len(ls) + 1)
 		ll := longLine(r.Pick([]string{"", "# ", "[1s] ", "{", "|+> "}), total, r.Pick([]string{"", "}", " "}))
 		ls = append(ls[:at], append([]string{ll}, ls[at:]...)...)
